@@ -46,9 +46,18 @@ fn genesis(net: NetID, m: u128) -> GenesisSpec {
     }
 }
 
+fn dest_for(x: u64) -> melstructs::Address {
+    match x % 3 {
+        0 => CovSpec::True.hash(),
+        1 => melstructs::Address(Default::default()),
+        _ => melstructs::Address(tmelcrypt::hash_single(&x.to_le_bytes())),
+    }
+}
+
 fn one(net: NetID, t901: bool, m: u128, d: Option<i8>, shard: usize) -> Check {
     let w = World::new(genesis(net, m), shard);
-    let action = d.map(|d| ProposerAction { fee_multiplier_delta: d, reward_dest: CovSpec::True.hash() });
+    // the step must not depend on where the reward goes: ordinary address, the destruction address, an unknown one
+    let action = d.map(|d| ProposerAction { fee_multiplier_delta: d, reward_dest: dest_for(m as u64 ^ (d as u8 as u64) << 3) });
     let cur = w.cur.clone();
     let got = match catch(|| cur.seal(action).header().fee_multiplier) {
         Ok(g) => g,
@@ -118,7 +127,7 @@ pub fn check_case(c: &Case, st: &mut Stats, shard: usize) -> Check {
             };
             let h = w.height();
             let t901_now = crate::refstf::tips_at(net, h).t901;
-            match w.seal(Some(ProposerAction { fee_multiplier_delta: d, reward_dest: CovSpec::True.hash() })) {
+            match w.seal(Some(ProposerAction { fee_multiplier_delta: d, reward_dest: dest_for(i as u64) })) {
                 crate::world::Outcome::Ok(s) => {
                     let got = s.header().fee_multiplier;
                     let (want, clamped) = spec(m, d, t901_now);
@@ -247,7 +256,7 @@ fn boundary_case(net_sel: u8, m0: u128, st: &mut Stats, shard: usize) -> Check {
         for _ in 0..5 {
             let h = w.height();
             let t901 = crate::refstf::tips_at(net, h).t901;
-            match w.seal(Some(ProposerAction { fee_multiplier_delta: d, reward_dest: CovSpec::True.hash() })) {
+            match w.seal(Some(ProposerAction { fee_multiplier_delta: d, reward_dest: dest_for(h ^ m as u64) })) {
                 crate::world::Outcome::Ok(s) => {
                     st.eval();
                     let got = s.header().fee_multiplier;
